@@ -298,3 +298,23 @@ prop('C07',
      level_text=("Fault-injection sweeps, structure-aware and raw coverage-guided fuzzing with a dimensional-consistency oracle and map/saved-game differential under ASan/UBSan; exploration."),
      technique="structure-aware + raw coverage-guided fuzzing (libFuzzer), rapidcheck corruption plans, exhaustive prefix/field sweeps, map vs saved-game differential, ASan/UBSan",
      design_ref="DESIGN.md section 3, C07")
+
+prop('C16',
+     quick=dict(sweep=True, sweep_workers=4, pbt=(400, 120, 8)),
+     thorough=dict(sweep=True, sweep_workers=14, pbt=(6000, 120, 2), stage_timeout=3400),
+     floor=dict(quick=300, thorough=1500), alloc_cap_mb=256, case_timeout=300,
+     rule=("Maps built through the public route ReadMap(reference-encoded bytes) with pseudo-random tile words whose mapping index cycles through all 2048 values and 2048 distinct mapping entries. "
+           "Sweep: every width 2^5..2^10 x heights {1,2,3,31,32,33,64,255,256} (thorough: all heights 1..256, 1536 maps, 66M tiles). Per map: reported width/height/count equal the header; for EVERY "
+           "coordinate the independent index ((x>>5)*h+y)*32+(x&31) is in range and distinct (exact cover), and GetCellType / GetTileMappingIndex / GetLavaPossible / GetTilesetIndex / GetImageIndex "
+           "equal the fields of the raw tile word (bits 0-4, 5-15, 28) and of the mapping entry it names; bijection through the setter: in 4 rounds every coordinate's linear id is spelled in base 32 into "
+           "the cell-type field via SetCellType and every tile of the array must then hold the digit of the coordinate the 32-column block order assigns to it, with no other bit changed; on 8 corner/"
+           "block-border coordinates and 56 sampled ones: all 32 cell types and both lava states set -> get returns the value and exactly that field of exactly that word changed (whole tile array "
+           "compared; serialised bytes compared with the reference serialisation on small maps); cell types 32, 33, 64, 255, 9999, -1, INT_MIN refused without change. pbt: random (width, height, tile "
+           "seed, sample coordinates). Non-trivial = width >= 64 and height >= 2 (both block terms of the index formula active); distinct by (width, height, seed)."),
+     sweep_what="widths 2^5..2^10 x heights {1,2,3,31,32,33,64,255,256} (quick) / all heights 1..256 (thorough), every coordinate of every map",
+     sweep_is_whole_domain=False,
+     assumptions=["maps are built via ReadMap because Map has no public constructor for dimensions"],
+     title="Map coordinates address distinct tiles; tile accessors are faithful",
+     level_text=("Exhaustive enumeration of all coordinates over a grid of map sizes (complete 2^5..2^10 x 1..256 in the thorough tier) against an independent bit layout and index formula; exploration beyond the grid."),
+     technique="bounded-exhaustive enumeration with an independent index/bit-layout model, plus property-based sampling (rapidcheck)",
+     design_ref="DESIGN.md section 3, C16")
